@@ -47,6 +47,9 @@ func fmtMetric(m dag.Metric) string { return fmt.Sprintf("%d:%d", uint32(m.Num),
 
 // ---------------------------------------------------------------------------------------------
 
+// semHung: an Acquire with a timeout did not return within 3 s (a waiter that nothing wakes up)
+var semHung = false
+
 type semRunner struct {
 	s     *datasemaphore.DataSemaphore
 	warns []string
@@ -81,6 +84,9 @@ func (r *semRunner) Step(line string) string {
 	case "try":
 		return r.fin("r=" + B2s(r.s.TryAcquire(metric(f[1], f[2]))))
 	case "acq":
+		if semHung && f[3] != "0" {
+			return "not-run (an earlier Acquire never returned)"
+		}
 		done := make(chan bool, 1)
 		s := r.s
 		go func() { done <- s.Acquire(metric(f[1], f[2]), time.Duration(Atou(f[3]))*time.Millisecond) }()
@@ -88,6 +94,7 @@ func (r *semRunner) Step(line string) string {
 		case res := <-done:
 			return r.fin("r=" + B2s(res))
 		case <-time.After(3 * time.Second):
+			semHung = true
 			return "hung (Acquire with a timeout of " + f[3] + " ms did not return within 3 s)"
 		}
 	case "rel":
@@ -416,8 +423,16 @@ func (r *timedRunner) exec(line string) (out, sig string, again bool) {
 	return "ret=" + join(rets) + tail, sig, again
 }
 
+// timedHung: a blocked request was still blocked past 2*timeout+300 ms in all three attempts of a
+// scenario; the remaining scenarios are not run (each would cost seconds and the finding is made).
+var timedHung = false
+
 func (r *timedRunner) Step(line string) string {
 	if r.noisy {
+		return "noisy"
+	}
+	if timedHung && len(r.history) == 0 {
+		r.noisy = true
 		return "noisy"
 	}
 	out, sig, again := r.exec(line)
@@ -439,6 +454,9 @@ func (r *timedRunner) Step(line string) string {
 	}
 	if out == "noisy" {
 		r.noisy = true
+	}
+	if strings.Contains(out, " hung=") {
+		timedHung = true
 	}
 	r.history = append(r.history, line)
 	r.sigs = append(r.sigs, sig)
